@@ -605,6 +605,28 @@ func (j *c15J) jobPair(mode string, k int, pi []int, flavor string, gnil bool) {
 		prf, err = proof.HashProve(j.s, "PairShuffle", prover)
 		class += "Shuffle-random-permutation"
 		j.r.Op("shuffle.Shuffle")
+		// the prover returned by Shuffle may be run again (e.g. to re-issue the proof): every proof it produces must verify
+		if err == nil {
+			for rep := 2; rep <= 3; rep++ {
+				prf2, err2 := proof.HashProve(j.s, "PairShuffle", prover)
+				j.r.Eval("pair/honest/prover-run-again", fmt.Sprintf("%s%s|rep=%d", j.id, desc, rep), true)
+				st2 := &c15Stmt{G: in.aG(), H: in.H, X: in.X, Y: in.Y, Xb: Xb, Yb: Yb, name: "PairShuffle"}
+				if err2 != nil {
+					d := st2.detail()
+					d["error"] = err2.Error()
+					d["run"] = rep
+					j.violation("C15/pair/honest/prover-run-again/prove-error", "the prover returned by Shuffle fails when run a second time: "+err2.Error(), d)
+					break
+				}
+				if verr2, ok2 := j.verify("pair", "honest-prover-run-again", st2.name, j.pairVerifier(st2.G, st2.H, st2.X, st2.Y, st2.Xb, st2.Yb), prf2, st2.detail); ok2 && verr2 != nil {
+					d := st2.detail()
+					d["error"] = verr2.Error()
+					d["run"] = rep
+					j.violation("C15/pair/honest/prover-run-again/rejected", fmt.Sprintf("proof number %d produced by the same honest prover is rejected: %v", rep, verr2), d)
+					break
+				}
+			}
+		}
 	}
 	j.r.Op("proof.HashProve", "proof.HashVerify", "shuffle.Verifier", "shuffle.PairShuffle.Verify", "shuffle.SimpleShuffle.Verify")
 	st := &c15Stmt{G: in.aG(), H: in.H, X: in.X, Y: in.Y, Xb: Xb, Yb: Yb, name: "PairShuffle"}
